@@ -237,6 +237,30 @@ def apply_lemma(req):
     return out
 
 
+class Budget(BaseException):
+    """the per-request CPU-time budget ran out (normal forms are exponential: a resource limit, not a verdict)"""
+
+
+def with_budget(fn, req):
+    import signal, resource
+    def on_alarm(sig, frm):
+        raise Budget()
+    old = signal.signal(signal.SIGALRM, on_alarm)
+    soft, hard = resource.getrlimit(resource.RLIMIT_AS)
+    resource.setrlimit(resource.RLIMIT_AS, (req.get('mem_limit', 6 << 30), hard))
+    signal.alarm(int(req.get('budget', 120)))
+    try:
+        return fn(req)
+    except Budget:
+        return {'out': 'resource:time', 'verdict': 'none', 'conc': req['pat'], 'stages': [], 'stage_error': None}
+    except MemoryError:
+        return {'out': 'resource:memory', 'verdict': 'none', 'conc': req['pat'], 'stages': [], 'stage_error': None}
+    finally:
+        signal.alarm(0)
+        signal.signal(signal.SIGALRM, old)
+        resource.setrlimit(resource.RLIMIT_AS, (soft, hard))
+
+
 def handle(req):
     if req['cmd'] == 'schemas':
         B = Bridge()
@@ -247,7 +271,7 @@ def handle(req):
     if req['cmd'] == 'expr':
         return do_expr(req)
     if req['cmd'] == 'taut':
-        return do_taut(req)
+        return with_budget(do_taut, req)
     if req['cmd'] == 'resolve':
         return do_resolve(req)
     raise ValueError(req['cmd'])
